@@ -1,0 +1,9 @@
+//go:build verif
+
+// Machine-checked contracts for package schedule (comment-only; see /verif/DESIGN.md).
+
+package schedule
+
+//@ func GetCPUPlans
+//@   trusted
+//@   ensures[C07.plans-nonnil,C04,C05,C06,C33] (arr(result) == 0 || allocated(result)) && forall k :: 0 <= k && k < len(result) ==> result[k] != nil && allocated(result[k])
